@@ -436,7 +436,7 @@ def holdsQ (t : Table Rat) (f : Rat → Rat → Rat) : Query → Ans → Bool
   | .nzc (some ax) false, .nums xs => xs.map some == perId t ax List.sum
   | .nzc none true, .nums xs => xs == [(nnzCells t.rows : Rat)]
   | .nzc none false, .nums xs => xs == [total t.rows]
-  | .density, .num x => x == specDensity t
+  | .density, .num x => approx x (specDensity t)
   | .reduce _ ax, a =>
     if t.samp.length = 0 ∨ t.obs.length = 0 then a == .err .tableException
     else (match a with
@@ -580,7 +580,8 @@ def frameVerdict (t : Table Rat) (sparse : Bool) (f : Frame) : Verdict :=
           (chk "frame.sparse.cell" (frameValuesNZ t f)).and (chk "frame.sparse.values" (frameValues t f))
         else chk "frame.dense.values" (frameValues t f)]
 
-def holdsFrame (t : Table Rat) (sparse : Bool) (f : Frame) : Bool := (frameVerdict t sparse f).isNone
+/-- the frame has the table's labels and values (the verdict above only names the failing clause) -/
+def holdsFrame (t : Table Rat) (f : Frame) : Bool := frameLabels t f && frameValues t f
 
 /-- metadata frame: index = IDs in order; for every ID and every (key, position) of its entry the
 frame shows that value under the column `key` / `key_position`; there are no other columns -/
@@ -720,12 +721,16 @@ def handle (req : Json) : R Json := do
     let items ← listF (fun it => do pure ((← asQuery (← fld it "query")), (← asAns (← fld it "ans")))) req "items"
     let verdicts := items.map (fun (q, a) => chk (toString (repr q)) (holdsQ inp.t (qFun q) q a))
     let models := items.map (fun (q, _) => answer inp q)
-    let agree := (items.zip models).all (fun ((_, a), m) => a == m)
+    let same : Query → Ans → Ans → Bool := fun q a m =>
+      match q, a, m with
+      | .density, .num x, .num y => approx x y
+      | _, _, _ => a == m
+    let agree := (items.zip models).all (fun ((q, a), m) => same q a m)
     let modelHolds := (items.zip models).all (fun ((q, _), m) => holdsQ inp.t (qFun q) q m)
     pure (result (allV verdicts) agree (.arr (models.map ansToJson).toArray)
       [("layout_ok", .bool inp.okb), ("model_holds", .bool modelHolds),
        ("disagree", .arr ((items.zip models).filterMap (fun ((q, a), m) =>
-          if a == m then none else some (Json.str (toString (repr q))))).toArray)])
+          if same q a m then none else some (Json.str (toString (repr q))))).toArray)])
   | "nonzero" =>
     let inp ← asInput (← fld req "input")
     let ps ← listF asPair req "pairs"
